@@ -31,9 +31,14 @@ def check_clock(prog: Program, rep: Report) -> None:
             # interval attribute: assigned in __init__ from a constructor parameter, unchanged elsewhere
             for ref in facts.send_event_time:
                 incs = []
-                R = Resolver(ref.fn)
+                from ..normalize import canon as _canon0
+                try:
+                    fn_c = _canon0(prog, h, ref.fn)      # private helpers (`_advance_clock()`) read in place
+                except Exception:
+                    fn_c = ref.fn
+                R = Resolver(fn_c)
                 new_clock = set()
-                for n in ast.walk(ref.fn):
+                for n in ast.walk(fn_c):
                     if isinstance(n, ast.AugAssign) and self_attr(n.target) == "_event_time":
                         incs.append((n, n.op, n.value))
                     elif isinstance(n, ast.Assign) and self_attr(n.targets[0]) == "_event_time":
@@ -46,8 +51,8 @@ def check_clock(prog: Program, rep: Report) -> None:
                             # the clock is rebuilt rather than advanced: from a float that this method accumulates (the absolute
                             # time is then rounded at its own size at every step and the k-th sampling time drifts from
                             # k * interval), or in a way that is not followed (undecided)
-                            floats = {self_attr(a.target) for a in ast.walk(ref.fn) if isinstance(a, ast.AugAssign) and self_attr(a.target)}
-                            floats |= {self_attr(a.targets[0]) for a in ast.walk(ref.fn) if isinstance(a, ast.Assign) and self_attr(a.targets[0])
+                            floats = {self_attr(a.target) for a in ast.walk(fn_c) if isinstance(a, ast.AugAssign) and self_attr(a.target)}
+                            floats |= {self_attr(a.targets[0]) for a in ast.walk(fn_c) if isinstance(a, ast.Assign) and self_attr(a.targets[0])
                                        and isinstance(a.value, ast.BinOp) and any(self_attr(x) == self_attr(a.targets[0]) for x in ast.walk(a.value))}
                             from_float = isinstance(v, ast.Call) and norm(v.func).endswith("from_float") \
                                 and any(self_attr(x) in floats for x in ast.walk(v) if isinstance(x, ast.Attribute))
@@ -68,7 +73,7 @@ def check_clock(prog: Program, rep: Report) -> None:
                     if ok:
                         ok, why = _interval_is_ctor_param(prog, h, attr)
                     rep.ob("R17.4-interval-step", ok, Loc(ref.file, stmt.lineno, ref.qual), stmt, why)
-                rets = [n for n in ast.walk(ref.fn) if isinstance(n, ast.Return)]
+                rets = [n for n in ast.walk(fn_c) if isinstance(n, ast.Return)]
                 for r in rets:
                     rv = r.value
                     ok = rv is not None and (self_attr(rv) == "_event_time" or R.text(rv) in new_clock)
@@ -115,9 +120,16 @@ def check_clock(prog: Program, rep: Report) -> None:
 
 def _is_interval_param(init: ast.FunctionDef, call: ast.AST) -> bool:
     ps = param_names(init)
-    return isinstance(call, ast.Call) and len(call.args) == 1 and isinstance(call.args[0], ast.UnaryOp) \
-        and isinstance(call.args[0].op, ast.USub) and isinstance(call.args[0].operand, ast.Name) \
-        and call.args[0].operand.id in ps
+    if not (isinstance(call, ast.Call) and len(call.args) == 1 and isinstance(call.args[0], ast.UnaryOp)
+            and isinstance(call.args[0].op, ast.USub)):
+        return False
+    operand = call.args[0].operand
+    if isinstance(operand, ast.Name):
+        return operand.id in ps
+    # the attribute the constructor has just bound to the parameter (self._interval = sampling_interval; from_float(-self._interval))
+    a = self_attr(operand)
+    return a is not None and any(isinstance(n, ast.Assign) and any(self_attr(t) == a for t in n.targets)
+                                 and isinstance(n.value, ast.Name) and n.value.id in ps for n in ast.walk(init))
 
 
 def _interval_is_ctor_param(prog: Program, h, attr: str):
